@@ -3,6 +3,7 @@ package verifharness
 import (
 	"encoding/json"
 	"fmt"
+	"io"
 	"math"
 	"math/rand"
 	"os"
@@ -64,6 +65,7 @@ type rngCase struct {
 	Choices   []int                  `json:"choices"`
 	Contracts map[string]rngContract `json:"contracts"` // variable name or inline tag -> contract
 	Faulty    bool                   `json:"faulty"`    // the script contains a deliberate run-time fault
+	Split     bool                   `json:"split"`     // every node comes from its own reader
 	Family    string                 `json:"family,omitempty"`
 }
 
@@ -205,6 +207,16 @@ func rngRun(c *rngCase, run int, mode string, between func()) []rngEvent {
 				pv = r
 			}
 		}()
+		if c.Split {
+			var readers []io.Reader
+			for _, part := range strings.SplitAfter(c.Script, "===\n") {
+				if part != "" {
+					readers = append(readers, strings.NewReader(part))
+				}
+			}
+			runner, err = ysgo.NewDialogueRunner(storer, c.Seed, readers...)
+			return
+		}
 		runner, err = ysgo.NewDialogueRunner(storer, c.Seed, strings.NewReader(c.Script))
 	}()
 	steps := 0
@@ -520,7 +532,7 @@ func rngGenCase(rnd *rand.Rand, id int) *rngCase {
 		}
 		b.WriteString("===\n")
 	}
-	c := &rngCase{ID: id, Seed: rngGenSeed(rnd), Script: b.String(), Contracts: g.contracts, Faulty: g.faulty}
+	c := &rngCase{ID: id, Seed: rngGenSeed(rnd), Script: b.String(), Contracts: g.contracts, Faulty: g.faulty, Split: nodes > 1 && rnd.Intn(2) == 0}
 	for i := 0; i < 8; i++ {
 		c.Choices = append(c.Choices, rnd.Intn(6))
 	}
@@ -533,8 +545,13 @@ func rngGenCase(rnd *rand.Rand, id int) *rngCase {
 // contract of random() at the edge of its interval (a rounding or scaling of the draw shows
 // there and practically nowhere else).
 func rngExtremeCases(rnd *rand.Rand, firstID, seeds, depth int) []*rngCase {
-	var cases []*rngCase
-	for k := 0; k < seeds && len(cases) < 40; k++ {
+	type hit struct {
+		seed string
+		idx  int
+		edge float64 // distance from the nearer end of [0,1)
+	}
+	var hits []hit
+	for k := 0; k < seeds; k++ {
 		seed := rngGenSeed(rnd)
 		src, err := rng.NewRNG(seed)
 		if err != nil || src == nil {
@@ -545,13 +562,22 @@ func rngExtremeCases(rnd *rand.Rand, firstID, seeds, depth int) []*rngCase {
 			if f >= 1e-6 && f < 1-1e-6 {
 				continue
 			}
-			script := fmt.Sprintf("title: Start\n---\n<<set $n = 1>>\n<<jump Loop>>\n===\ntitle: Loop\n---\n"+
-				"<<if $n < %d>>\n<<set $n = $n + 1>>\n<<set $w = random()>>\n<<jump Loop>>\n<<endif>>\n"+
-				"<<set $f1 = random()>>\nL1 edge f2=<{floor($f1 * 100)}>\n===\n", i)
-			cases = append(cases, &rngCase{ID: firstID + len(cases), Seed: seed, Script: script, Choices: []int{0},
-				Contracts: map[string]rngContract{"f1": {Kind: "random"}, "f2": {Kind: "range", A: 0, B: 99}}, Family: "extreme"})
+			hits = append(hits, hit{seed, i, math.Min(f, 1-f)})
 			break
 		}
+	}
+	// the draws nearest to an end first (whatever a rounding or scaling of the draw does, it shows there)
+	sort.Slice(hits, func(a, b int) bool { return hits[a].edge < hits[b].edge })
+	if len(hits) > 40 {
+		hits = hits[:40]
+	}
+	var cases []*rngCase
+	for _, h := range hits {
+		script := fmt.Sprintf("title: Start\n---\n<<set $n = 1>>\n<<jump Loop>>\n===\ntitle: Loop\n---\n"+
+			"<<if $n < %d>>\n<<set $n = $n + 1>>\n<<set $w = random()>>\n<<jump Loop>>\n<<endif>>\n"+
+			"<<set $f1 = random()>>\nL1 edge f2=<{floor($f1 * 100)}>\n===\n", h.idx)
+		cases = append(cases, &rngCase{ID: firstID + len(cases), Seed: h.seed, Script: script, Choices: []int{0},
+			Contracts: map[string]rngContract{"f1": {Kind: "random"}, "f2": {Kind: "range", A: 0, B: 99}}, Family: "extreme"})
 	}
 	return cases
 }
